@@ -365,6 +365,53 @@ Theorem c12_source_roundtrip_2d : forall c cu dt rows, c_tokens_only c = false -
 Proof. exact Tie.source_roundtrip_2d. Qed.
 Print Assumptions c12_source_roundtrip_2d.
 
+(* ---- `_info_and_validate` (called by validate_spect_data_set: info = False, validate = True), `_partial`:
+        the three marked blocks of the loop body - the feature checks (`fn = ...` to `if info:`), `if ali is not None: ...`,
+        the body of `if ref is not None:` (dtype / device / shape tests, the per-row boundary tests `r[1] <= T >= r[2] - fix`
+        and repairs `r[1:] = -1`, `r[2] = T` written back through the loop variable, torch.save, the token loop) - are the
+        translated text; what joins them is the GLUE of C12/SrcRunV.v (the loop header, the `del` statements, the test
+        `if ref is not None:`, the initial `None`s, `fix = 1 if fix else None`).  Hypotheses: the data set yields 3-tuples
+        (suppress_alis = False) and the stored tensors have the shapes the model's constructors name. ---- *)
+From PV Require C12.SrcRunV C12.TieVAli C12.TieVRef2 C12.TieValidate C12.TieValidateAll.
+From Coq Require Import String.   (* for the literal "idx" below; string_scope is not opened *)
+
+(* one iteration: the interpreted blocks raise / return as Model.step_utt, the three state variables afterwards hold its
+   vstate, and the files they saved (all of this utterance) read back as its updated utterance *)
+Theorem c12_source_step_is_model_partial : forall c d ids fx i u vst acc evs st,
+  nth_error d i = Some u -> nth_error ids i = Some (SrcRunV.uid i) -> c_suppress_alis c = false ->
+  TieValidate.utt_shape_ok c u -> TieValidate.good_state ids fx vst evs st ->
+  TieValidate.outcome_ok ids fx i u evs
+    (SrcRunV.step_src (SrcRun.ext12 (SrcRunV.env_ds c d)) (Interp.set_var "idx"%string (MiniPy.Syntax.VInt (Z.of_nat i)) st))
+    (step_utt false true c fx vst acc u).
+Proof. exact Tie.source_step_is_model. Qed.
+Print Assumptions c12_source_step_is_model_partial.
+
+(* the whole pass: same exception / return and the same directory afterwards as Model.validate - every directory, every
+   fix argument (None, ints, the deprecated booleans), every sos / eos / tokens_only *)
+Theorem c12_source_validate_is_model_partial : forall c fa d,
+  c_suppress_alis c = false -> Forall TieValidateAll.utt_stored_ok d ->
+  SrcRunV.src_validate c fa d = Some (validate c fa d).
+Proof. exact Tie.source_validate_is_model. Qed.
+Print Assumptions c12_source_validate_is_model_partial.
+
+(* composed with c12_strict_accepts_iff_wellformed / c12_strict_never_writes / c12_fix_result_is_repair *)
+Theorem c12_source_strict_accepts_iff_wellformed_partial : forall c d,
+  plain_yield c -> syms_nonneg c -> tokens_nonneg d -> Forall TieValidateAll.utt_stored_ok d ->
+  (SrcRunV.src_validate c FNone d = Some (d, None) <-> WellFormed d).
+Proof. exact Tie.source_strict_accepts_iff_wellformed. Qed.
+Print Assumptions c12_source_strict_accepts_iff_wellformed_partial.
+
+Theorem c12_source_strict_never_writes_partial : forall c d, c_suppress_alis c = false -> Forall TieValidateAll.utt_stored_ok d ->
+  exists r, SrcRunV.src_validate c FNone d = Some (d, r).
+Proof. exact Tie.source_strict_never_writes. Qed.
+Print Assumptions c12_source_strict_never_writes_partial.
+
+Theorem c12_source_fix_result_is_repair_partial : forall c fa d d',
+  plain_yield c -> clean_writes c (tolerance fa) -> Forall TieValidateAll.utt_stored_ok d ->
+  SrcRunV.src_validate c fa d = Some (d', None) -> d' = repair (tolerance fa) d /\ WellFormed d'.
+Proof. exact Tie.source_fix_result_is_repair. Qed.
+Print Assumptions c12_source_fix_result_is_repair_partial.
+
 (* non-vacuity: the interpreted sources run (vm_compute) on a reference with segments, sos = 7, eos = 8 *)
 Example c12_source_nonvacuous :
   let c := mkCfg (Some 7) (Some 8) false false in
@@ -373,5 +420,12 @@ Example c12_source_nonvacuous :
   /\ SrcRun.src_write_hyp (Some 7) (Some 8) (SrcRun.tens_of_rdata true DI32 (R2 [(7, -1, -1); (1, 0, 2); (2, 2, 5); (8, -1, -1)]))
      = Some (SrcRun.tens_of_rdata false DI64 (R2 [(1, 0, 2); (2, 2, 5)]))
   /\ SrcRun.src_load_ref (mkCfg (Some 7) None false false) (SrcRun.tens_of_ref (mkRef false DI64 (R2w 0 [[]; []])))
-     = Some (inl IndexErr).
+     = Some (inl IndexErr)
+  /\ (let f := mkFeat false DF32 [3%nat; 2%nat] in
+      let d := [mkUtt f (Some (mkAli false DI32 (A1 [0; 0; 1; 1]))) (Some (mkRef false DI64 (R2 [(1, 0, 4); (2, -1, 3)])));
+                mkUtt f (Some (mkAli false DI64 (A1 [2; 2; 2]))) (Some (mkRef false DU8 (R2 [(0, 1, 1)])))] in
+      SrcRunV.src_validate cfg_plain (FInt 1) d
+      = Some ([mkUtt f (Some (mkAli false DI64 (A1 [0; 0; 1]))) (Some (mkRef false DI64 (R2 [(1, 0, 3); (2, -1, -1)])));
+               mkUtt f (Some (mkAli false DI64 (A1 [2; 2; 2]))) (Some (mkRef false DI64 (R2 [(0, 1, 1)])))], None)
+      /\ SrcRunV.src_validate cfg_plain (FInt 0) d = Some (fst (validate cfg_plain (FInt 0) d), Some ValueErr)).
 Proof. vm_compute. repeat split; reflexivity. Qed.
